@@ -59,8 +59,8 @@ PROPS = {
                      "objects (any multiset and order of the six matchers, operands derived from the paths by 9 transformations, caseInsensitive absent/true/false/"
                      "repeated/first/last, unknown names, mistyped operands, 12 and 14 matchers); every rule is used for get and for fetch (states and methods), "
                      "followed by a change and by re-use of the same fetch id; selections and events are compared with an independent matcher. "
-                     "Non-trivial = at least one well-formed rule selects a proper non-empty subset of the paths; distinct = scenario hash."),
-    "C02": scen("c02", ["default"],
+                     "Non-trivial = at least one well-formed rule selects a proper non-empty subset of the paths; every scenario holds complete routed exchanges and ends with a census by a fresh subscriber (every reported element has a shape some add/change asked for); distinct = scenario hash."),
+    "C02": scen("c02", ["default", "default", "default", "tiny"],
                 quick=dict(cases=1500, size=60), thorough=dict(cases=40000, size=100, budget_s=1500),
                 rule="rapidcheck-generated request objects of 26 shapes (every dispatcher method, unknown/empty/non-string methods, missing, mistyped and "
                      "duplicated members, unsolicited response objects, neither-request-nor-response) crossed with 27 id values of every JSON type "
@@ -68,7 +68,7 @@ PROPS = {
                      "and in batches of 0-4 members (optionally with a non-object member), mixed with ordinary add/fetch/set/call/reply traffic of 1-4 peers "
                      "and timer expiry; every transcript is compared with the reference model step by step (exactly one response with an equal id and one of "
                      "result/error on the requester's connection only, batch order, nothing for id-less requests and response objects). "
-                     "Non-trivial = the scenario contains a batch of >=2 members, a non-numeric id, or an incoming response object; distinct = scenario hash."),
+                     "Non-trivial = the scenario contains a batch of >=2 members, a non-numeric id, or an incoming response object; plus slow requesters (the kernel takes nothing while requests keep coming; default and tiny write buffer): a connection that is still open at the end has a response for every request answered while it is processed (gap oracle); distinct = scenario hash."),
     "C06": scen("c06", ["default", "default", "default", "tiny"],
                 quick=dict(cases=900, size=50), thorough=dict(cases=40000, size=80, budget_s=1500),
                 fuzz=dict(mode="c06", quick=dict(workers=4, runs=12000, max_len=1024), thorough=dict(workers=6, runs=1500000, max_len=2048)),
